@@ -324,4 +324,33 @@ theorem phase_compensation_program (len : Nat) (loops : List (Rat × Nat × Bool
 example : updateParams 3 [(1 / 10, 1, false, [0, 0, 3 / 4]), (1 / 4, 2, true, [1, 1, 1]), (1 / 2, 2, false, [0, 0, 0])]
     = [[0, 1 / 10, -1 / 20], [1, 1, 1], [0, -1 / 10, 3 / 10]] := by decide +kernel
 
+/- **frame removal — full statement (FALSE of the code, known finding `user-offset-after-compensated-loop`).**  Compensating
+loop `i` adds the time-bin dependent rotation `corr_i[j]` to the frame of the pulses it hands on; EVERY later loop — also one
+whose own offset the user set — has to remove it again:  `out[i+1][j] ≡ src[i+1][j] + own[i+1][j] − corr_i[j]  (mod π)`  with
+`own = 0` for a user-set loop.  `update_params` skips user-set loops altogether. -/
+
+/-- the witness: loop 0 (offset π/4, delay 1) compensated by the compiler, loop 1 set by the user: its phases stay `0`
+although the frame of time bin 1 was rotated by `π/4` — no multiple of π makes up for it -/
+theorem phase_frame_counterexample :
+    (updateParams 3 [(1 / 4, 1, false, [0, 0, 0]), (0, 1, true, [0, 0, 0])])[1]? = some [0, 0, 0] ∧
+    ¬ ∃ m : Int, (0 : Rat) = 0 + 0 - corrAt (1 / 4) 1 1 + (m : Rat) := by
+  refine ⟨by decide +kernel, ?_⟩
+  rintro ⟨m, hm⟩
+  have hc : corrAt (1 / 4) 1 1 = 1 / 4 := by decide +kernel
+  rw [hc] at hm
+  exact quarter_not_int m (by linarith)
+
+/-- **phase_frame_partial**: what does hold — two consecutive loops that are both compensated by the compiler: the later one
+removes exactly the accumulated offset of the earlier one (and adds its own), for every program length, offsets and delays.
+Missing hypothesis for the full statement: no user-set loop after a compiler-compensated loop with non-zero phase. -/
+theorem phase_frame_partial (len : Nat) (loops : List (Rat × Nat × Bool × List Rat))
+    (i : Nat) (o o' : Rat) (d d' : Nat) (ph ph' : List Rat)
+    (h0 : loops[i]? = some (o', d', false, ph')) (h1 : loops[i + 1]? = some (o, d, false, ph)) :
+    (updateParams len loops)[i + 1]? = some
+      ((List.range len).map fun j => compensate (ph.getD j 0) (corrAt o d j) (corrAt o' d' j)) :=
+  updateLoops_get_succ len _ loops i o o' d d' ph ph' h0 h1
+
+example : ([(1 / 10, 1, false, [0, 0, 3 / 4]), (1 / 2, 2, false, [0, 0, 0])] : List (Rat × Nat × Bool × List Rat))[0]?
+    = some (1 / 10, 1, false, [0, 0, 3 / 4]) := by decide +kernel
+
 end SFV.C12
